@@ -145,7 +145,7 @@ def main():
             for frn in sorted(_glob.glob(os.path.join(VERIF, "seeded", "results_first_run*.json"))):
                 for r in json.load(open(frn)):
                     first.setdefault(r["change"], r)
-            f.write("`first run` is the verdict of the checks as they stood BEFORE the change was seen (46 of 59 caught; C20-3 arrived later and was caught by the machinery as strengthened for C20-2); every change missed then led to a strengthened contract or engine fix, listed in DESIGN.md section 8.6.\n\n")
+            f.write("`first run` is the verdict of the checks as they stood BEFORE the change was seen (per round: 46/59, 49/60, 29/40, 29/39, 25/38, 25/38, 12/19, 19/21, 24/26; files results_first_run*.json); every change missed then led to a strengthened contract or engine fix, listed in DESIGN.md sections 8.6-8.14. Patches marked \"rebased\" in their meta.json were re-done on top of later fix: commits.\n\n")
         f.write("| change | property | first run | now | tests still pass | demo fails on patched | obligations reported / note |\n|---|---|---|---|---|---|---|\n")
         for r in allres:
             r = dict(r)
